@@ -164,8 +164,9 @@ pub fn for_property(prop: &str) -> Vec<Family> {
             f("pool-panic", "pool threads have died of panicking jobs; several threads then schedule work at once, so that reaping, replacing and waking race", gen_pool_panic, Q / 8, T / 8),
         ],
         "C09" => vec![
-            f("try", "try_sync racing every other operation kind and their completion paths", g_try, Q * 3 / 4, T * 3 / 4),
+            f("try", "try_sync racing every other operation kind and their completion paths", g_try, Q * 5 / 8, T * 5 / 8),
             f("mix-kick", "sync/try_sync callers and wakers racing with pool threads going dormant", g_kick, Q / 4, T / 4),
+            sw("try-sweep", "try_sync landing at every scheduling point of the context that runs the object's queue (pool thread, caller inside sync, polling task)", gen_try_sweep, Q / 8, T / 8, 48),
         ],
         "C13" => vec![
             f("suspend", "suspend, later scheduling calls, resume or drop of the resumer from any thread", g_suspend, Q * 5 / 8, T * 5 / 8),
@@ -193,7 +194,7 @@ pub fn required_probes(prop: &str) -> &'static [&'static str] {
         "C06" => &["suspended_on_pool", "suspended_on_caller", "state_seen_awoken_while_running", "state_seen_waiting_for_unpark", "state_seen_waiting_for_poll", "state_seen_waiting_for_wake", "self_wakes", "stale_wakes"],
         "C07" => &["handle_drops_unresolved", "gate_pending"],
         "C08" => &["fsync_drop_before_poll", "fsync_drop_mid", "fsync_drop_waiting_slot"],
-        "C09" => &["try_ok", "try_busy"],
+        "C09" => &["try_ok", "try_busy", "sweep_injections_fired"],
         "C05" => &["drops_by_caller", "drops_by_pool", "sweep_injections_fired", "drops_while_panicking"],
         "C10" => &["block_on"],
         "C11" => &["stream_pending", "sweep_injections_fired"],
